@@ -286,6 +286,35 @@ func c16KeyPairs() fw.Result {
 			a.sample(map[string]any{"sql": cfg.SQL, "table_key": t1, "probes": len(uni)})
 		}
 	}
+	// the text tuples that collide under any "join the components with a middle" encoding: the partner must not match
+	for _, pr := range middlePairs() {
+		for side := 0; side < 2; side++ {
+			t1 := []any{pr[side][0], pr[side][1]}
+			t2 := []any{pr[1-side][0], pr[1-side][1]}
+			init := []Row{{"dev": t1[0], "site": t1[1], "loc": "T"}}
+			ops := []c16Op{{Kind: "emit", Key: t1}, {Kind: "emit", Key: t2}}
+			got, want, execErr, st, pv := c16Run(cfg, init, ops)
+			a.r.Evaluations += 2
+			a.r.States += 2
+			a.r.Transitions += 2
+			a.r.Nontrivial++
+			if st != sched.StatusOK || execErr != "" {
+				a.fail("C16|key-pairs|exec", execErr+" "+st.String()+" "+firstLine(pv), map[string]any{"sql": cfg.SQL, "table": init}, nil, nil)
+				continue
+			}
+			for i := range want {
+				if i >= len(got) || !c16Eq(got[i], want[i]) {
+					kind := "different-keys-match"
+					if want[i] != nil {
+						kind = "equal-keys-do-not-match"
+					}
+					a.fail("C16|key-pairs|"+kind, fmt.Sprintf("%s with table key %s: a row with key %s gives %s, reference %s", cfg.SQL, js(t1), js(ops[i].Key), js(got[i]), js(want[i])),
+						map[string]any{"sql": cfg.SQL, "table": init, "probe": ops[i].Key}, want[i], got[i])
+					break
+				}
+			}
+		}
+	}
 	return a.result()
 }
 
